@@ -420,12 +420,18 @@ theorem fanoutAll_eq (cap : Nat) (ms : List Msg) : ∀ (cs : List Chan),
 
 
 def Located (s : RaceSt) (m : Nat) : Prop :=
-  m ∈ s.topicMem ∨ m ∈ s.topicDisk ∨ m ∈ s.chanMem ∨ m ∈ s.chanDisk ∨ m ∈ s.inflight ∨ m ∈ s.pumpHolds
+  m ∈ s.topicMem ∨ m ∈ s.topicDisk ∨ m ∈ s.chanMem ∨ m ∈ s.chanDisk ∨ m ∈ s.inflight ∨ m ∈ s.pumpHolds ∨
+    m ∈ s.scanHolds
 
-/-- every acknowledged message is somewhere (FIN is not part of this model) -/
-def RaceInv (s : RaceSt) : Prop := ∀ m ∈ s.acked, Located s m
+/-- the scan holds the exit lock (model parameter, tied to the tree); every acknowledged message is
+somewhere (FIN is not part of this model); once the channel has closed no scan holds a message -/
+def RaceInv (s : RaceSt) : Prop :=
+  s.scanLock = true ∧ (∀ m ∈ s.acked, Located s m) ∧ (s.chanClosed = true → s.scanHolds = [])
 
-theorem raceInv_init : RaceInv {} := by intro m hm; cases hm
+theorem raceInv_init : RaceInv {} := by
+  refine ⟨rfl, ?_, ?_⟩
+  · intro m hm; cases hm
+  · intro h; cases h
 
 theorem mem_erase_or {l : List Nat} {x m : Nat} (h : x ∈ l) : x = m ∨ x ∈ l.erase m := by
   by_cases hx : x = m
@@ -433,42 +439,33 @@ theorem mem_erase_or {l : List Nat} {x m : Nat} (h : x ∈ l) : x = m ∨ x ∈ 
   · exact Or.inr ((List.mem_erase_of_ne hx).mpr h)
 
 theorem raceInv_step (s s' : RaceSt) (a : RaceStep) (h : RaceInv s) (hs : raceStep s a = some s') : RaceInv s' := by
+  obtain ⟨hlock, hL, hS⟩ := h
   cases a with
   | pubCheck m =>
     simp only [raceStep] at hs
-    split at hs <;> (cases hs; exact h)
+    split at hs <;> (cases hs; exact ⟨hlock, hL, hS⟩)
   | pubSend m =>
     simp only [raceStep] at hs
     split at hs
     · split at hs
       · cases hs
+        refine ⟨hlock, ?_, hS⟩
         intro x hx
         simp only [List.mem_cons] at hx
         unfold Located; simp only [List.mem_append, List.mem_singleton]
         rcases hx with hx | hx
-        · exact Or.inl (Or.inr hx)
-        · rcases h x hx with h1 | h1 | h1 | h1 | h1 | h1
-          · exact Or.inl (Or.inl h1)
-          · exact Or.inr (Or.inl h1)
-          · exact Or.inr (Or.inr (Or.inl h1))
-          · exact Or.inr (Or.inr (Or.inr (Or.inl h1)))
-          · exact Or.inr (Or.inr (Or.inr (Or.inr (Or.inl h1))))
-          · exact Or.inr (Or.inr (Or.inr (Or.inr (Or.inr h1))))
+        · simp [hx]
+        · rcases hL x hx with h1 | h1 | h1 | h1 | h1 | h1 | h1 <;> simp [h1]
       · split at hs
-        · cases hs; exact h
+        · cases hs; exact ⟨hlock, hL, hS⟩
         · cases hs
+          refine ⟨hlock, ?_, hS⟩
           intro x hx
           simp only [List.mem_cons] at hx
           unfold Located; simp only [List.mem_append, List.mem_singleton]
           rcases hx with hx | hx
-          · exact Or.inr (Or.inl (Or.inr hx))
-          · rcases h x hx with h1 | h1 | h1 | h1 | h1 | h1
-            · exact Or.inl h1
-            · exact Or.inr (Or.inl (Or.inl h1))
-            · exact Or.inr (Or.inr (Or.inl h1))
-            · exact Or.inr (Or.inr (Or.inr (Or.inl h1)))
-            · exact Or.inr (Or.inr (Or.inr (Or.inr (Or.inl h1))))
-            · exact Or.inr (Or.inr (Or.inr (Or.inr (Or.inr h1))))
+          · simp [hx]
+          · rcases hL x hx with h1 | h1 | h1 | h1 | h1 | h1 | h1 <;> simp [h1]
     · cases hs
   | fanout =>
     simp only [raceStep] at hs
@@ -477,54 +474,97 @@ theorem raceInv_step (s s' : RaceSt) (a : RaceStep) (h : RaceInv s) (hs : raceSt
     · split at hs
       · cases hs
       · rename_i m rest hm
-        split at hs <;> cases hs <;> intro x hx <;> (unfold Located; simp only [List.mem_append, List.mem_singleton]) <;>
-          rcases h x hx with h1 | h1 | h1 | h1 | h1 | h1
+        split at hs <;> cases hs <;> refine ⟨hlock, ?_, hS⟩ <;> intro x hx <;>
+          (unfold Located; simp only [List.mem_append, List.mem_singleton]) <;>
+          rcases hL x hx with h1 | h1 | h1 | h1 | h1 | h1 | h1
         all_goals first
-          | (rw [hm] at h1; simp only [List.mem_cons] at h1; rcases h1 with h1 | h1 <;> simp [h1])
-          | simp [h1]
+          | (rw [hm] at h1; simp only [List.mem_cons] at h1; rcases h1 with h1 | h1 <;> simp [h1]; done)
+          | (simp [h1]; done)
   | pumpRecv =>
     simp only [raceStep] at hs
     split at hs
     · cases hs
     · rename_i m rest hm
       cases hs
+      refine ⟨hlock, ?_, hS⟩
       intro x hx
       unfold Located
-      rcases h x hx with h1 | h1 | h1 | h1 | h1 | h1
+      rcases hL x hx with h1 | h1 | h1 | h1 | h1 | h1 | h1
       all_goals first
-        | (rw [hm] at h1; simp only [List.mem_cons] at h1; rcases h1 with h1 | h1 <;> simp [h1])
-        | simp [h1]
+        | (rw [hm] at h1; simp only [List.mem_cons] at h1; rcases h1 with h1 | h1 <;> simp [h1]; done)
+        | (simp [h1]; done)
   | pumpRegister m =>
     simp only [raceStep] at hs
     split at hs
     · cases hs
+      refine ⟨hlock, ?_, hS⟩
       intro x hx
       unfold Located
-      rcases h x hx with h1 | h1 | h1 | h1 | h1 | h1
+      rcases hL x hx with h1 | h1 | h1 | h1 | h1 | h1 | h1
       all_goals first
         | (simp [h1]; done)
-        | (rcases mem_erase_or (m := m) h1 with h2 | h2 <;> simp [h2])
+        | (rcases mem_erase_or (m := m) h1 with h2 | h2 <;> simp [h2]; done)
+    · cases hs
+  | scanTake m =>
+    simp only [raceStep] at hs
+    split at hs
+    · cases hs
+    · rename_i hopen
+      split at hs
+      · cases hs
+        refine ⟨hlock, ?_, ?_⟩
+        · intro x hx
+          unfold Located
+          rcases hL x hx with h1 | h1 | h1 | h1 | h1 | h1 | h1
+          all_goals first
+            | (simp [h1]; done)
+            | (rcases mem_erase_or (m := m) h1 with h2 | h2 <;> simp [h2]; done)
+        · intro hc
+          exact absurd hc hopen
+      · cases hs
+  | scanPut m =>
+    simp only [raceStep] at hs
+    split at hs
+    · rename_i hm
+      split at hs
+      · rename_i hc
+        rw [hS hc] at hm
+        cases hm
+      · rename_i hc
+        split at hs <;> cases hs <;> refine ⟨hlock, ?_, fun hcl => absurd hcl hc⟩ <;> intro x hx <;>
+          (unfold Located; simp only [List.mem_append, List.mem_singleton]) <;>
+          rcases hL x hx with h1 | h1 | h1 | h1 | h1 | h1 | h1
+        all_goals first
+          | (simp [h1]; done)
+          | (rcases mem_erase_or (m := m) h1 with h2 | h2 <;> simp [h2]; done)
     · cases hs
   | exitFlag =>
     simp only [raceStep] at hs
     split at hs
     · cases hs
-    · cases hs; exact h
+    · cases hs; exact ⟨hlock, hL, hS⟩
   | exitChan =>
     simp only [raceStep] at hs
     split at hs
     · cases hs
-      intro x hx
-      unfold Located; simp only [List.mem_append]
-      rcases h x hx with h1 | h1 | h1 | h1 | h1 | h1 <;> simp [h1]
-    · cases hs
+    · rename_i hfree
+      have hempty : s.scanHolds = [] := by
+        simpa [hlock] using hfree
+      split at hs
+      · cases hs
+        refine ⟨hlock, ?_, fun _ => hempty⟩
+        intro x hx
+        unfold Located; simp only [List.mem_append]
+        rcases hL x hx with h1 | h1 | h1 | h1 | h1 | h1 | h1 <;> simp [h1]
+      · cases hs
   | exitTopicFlush =>
     simp only [raceStep] at hs
     split at hs
     · cases hs
+      refine ⟨hlock, ?_, hS⟩
       intro x hx
       unfold Located; simp only [List.mem_append]
-      rcases h x hx with h1 | h1 | h1 | h1 | h1 | h1 <;> simp [h1]
+      rcases hL x hx with h1 | h1 | h1 | h1 | h1 | h1 | h1 <;> simp [h1]
     · cases hs
 
 theorem raceInv_run : ∀ (sched : List RaceStep) (s s' : RaceSt), RaceInv s → raceRun s sched = some s' → RaceInv s' := by
@@ -538,7 +578,6 @@ theorem raceInv_run : ∀ (sched : List RaceStep) (s s' : RaceSt), RaceInv s →
     · cases hs
     · rename_i s1 h1
       exact ih s1 s' (raceInv_step s s1 a h h1) hs
-
 
 theorem persisted_reload (cap : Nat) (p : Persist) : persisted (reload cap p) = p.metadata := by
   unfold persisted reload
